@@ -212,8 +212,18 @@ class XPathToken(Token[ta.XPathTokenType]):
 
         context.axis = None
         context.size = len(results)
-        for context.position, context.item in enumerate(results, start=1):
-            yield context.item
+
+        step = self
+        while step.symbol == '[' and step:
+            step = step[0]  # a further predicate of the same axis step
+
+        if step is not self and getattr(step, 'reverse_axis', False):
+            # predicates of a reverse axis step number the items in reverse document order
+            for context.position, context.item in zip(range(len(results), 0, -1), results):
+                yield context.item
+        else:
+            for context.position, context.item in enumerate(results, start=1):
+                yield context.item
 
         context.item, context.size, context.position, context.axis = status
 
